@@ -706,7 +706,83 @@ func (s *Sim) BuildForge(f *Forge) *specqbft.SignedMessage {
 			msg.DataRound, msg.Root = pr, r
 			msg.RoundChangeJustification, _ = specqbft.MarshalJustifications(ps)
 		}
+	case "decided":
+		if !s.P.Verify {
+			return nil // with signature verification switched off in the operators a fabricated certificate proves nothing
+		}
+		// a fabricated certificate for val at the current height: commit type, a quorum-sized signer list, but really
+		// signed by the Byzantine operators only. f.Just selects how the list is padded.
+		msg.MsgType = specqbft.CommitMsgType
+		fullData = val(Values["B"])
+		msg.Root = Root(fullData)
+		byz := s.byzIDs()
+		var signers []spectypes.OperatorID
+		switch f.Just {
+		case "foreign-first": // non-members first, a real (Byzantine) member last
+			for i := 0; len(signers) < s.Quorum-1; i++ {
+				signers = append(signers, spectypes.OperatorID(s.P.N+1+i))
+			}
+			signers = append(signers, by)
+		case "dup": // the same member over and over
+			for len(signers) < s.Quorum {
+				signers = append(signers, by)
+			}
+		case "sigreplay": // the signers and aggregate signature of a genuine certificate for ANOTHER height / value
+			for i := len(s.Pool) - 1; i >= 0; i-- {
+				m := s.Pool[i].Msg
+				if m.Message.MsgType == specqbft.CommitMsgType && len(m.Signers) >= s.Quorum && (m.Message.Height != s.Height || m.Message.Root != msg.Root) {
+					sm := &specqbft.SignedMessage{Signature: append([]byte{}, m.Signature...), Signers: append([]spectypes.OperatorID{}, m.Signers...), Message: *msg, FullData: fullData}
+					return sm
+				}
+			}
+			return nil
+		default: // "claimed": correct members listed next to the Byzantine ones
+			have := map[spectypes.OperatorID]bool{}
+			for _, b := range byz {
+				signers, have[b] = append(signers, b), true
+			}
+			for id := spectypes.OperatorID(1); len(signers) < s.Quorum && int(id) <= s.P.N; id++ {
+				if !have[id] {
+					signers = append(signers, id)
+				}
+			}
+			sort.Slice(signers, func(i, j int) bool { return signers[i] < signers[j] })
+		}
+		var parts []*specqbft.SignedMessage
+		for _, b := range byz {
+			parts = append(parts, fx.Sign(s.KS, b, msg))
+		}
+		sm := fx.Aggregate(parts)
+		sm.Signers = signers
+		sm.FullData = fullData
+		return sm
 	default:
+		return nil
+	}
+	if f.T == "commit" && f.Just == "sigreplay" {
+		if !s.P.Verify {
+			return nil
+		}
+		// a commit for val in the name of a CORRECT operator, carrying the signature bytes of a commit that operator really
+		// sent for another height / round / value (receivers have verified those bytes before)
+		for i := len(s.Pool) - 1; i >= 0; i-- {
+			m := s.Pool[i].Msg
+			if m.Message.MsgType == specqbft.CommitMsgType && len(m.Signers) == 1 && !s.IsByz[m.Signers[0]] &&
+				(m.Message.Height != msg.Height || m.Message.Round != msg.Round || m.Message.Root != msg.Root) {
+				sel := i
+				if f.PRound > 0 { // another operator's, for variety
+					for j := i - 1; j >= 0 && j > i-40; j-- {
+						mj := s.Pool[j].Msg
+						if mj.Message.MsgType == specqbft.CommitMsgType && len(mj.Signers) == 1 && !s.IsByz[mj.Signers[0]] && int(mj.Signers[0])%3 == f.PRound%3 {
+							sel = j
+							break
+						}
+					}
+				}
+				o := s.Pool[sel].Msg
+				return &specqbft.SignedMessage{Signature: append([]byte{}, o.Signature...), Signers: append([]spectypes.OperatorID{}, o.Signers...), Message: *msg}
+			}
+		}
 		return nil
 	}
 	claimed := by
